@@ -17,6 +17,9 @@ struct set_node *vp_conf_alloc(size_t size, int type);
 /* CBMC has no non-local jump: see harness/env/jmp_model.h */
 #include "env/jmp_model.h"
 #endif
+#ifdef VP_FAKE_FILE
+#include "env/file_env.h"
+#endif
 
 #include "src/config.c"
 
@@ -33,3 +36,20 @@ struct set_node *vp_conf_alloc(size_t size, int type)
     if (type == CONF_OBJECT && size == sizeof(struct conf_node_object)) return (struct set_node *)calloc(1, sizeof(struct vp_cobj_elt));
     return (struct set_node *)calloc(1, sizeof(struct set_node) + size);
 }
+
+#if defined(VP_MODEL_LONGJMP) && !defined(REPLAY)
+int vp_parse_error;                 /* error code of the modelled longjmp, 0 if none */
+void vp_on_parse_error(int code);   /* harness: obligations at the point of the jump */
+void vp_longjmp(void *env, int code)
+{
+    struct conf_parse *parse = ENCLOSING_STRUCT(env, struct conf_parse, env);
+    vp_parse_error = code;
+    vp_on_parse_error(code);
+#ifndef VP_NO_READ_TAIL
+    /* tail of conf_read() */
+    set_clear(&parse->root.contents, 0);
+    xfree((void *)parse->data);
+#endif
+    __CPROVER_assume(0);
+}
+#endif
